@@ -7,3 +7,4 @@ EXPLANATION = ("Bounded runtime contracts on the real tf_pwa.variable.VarsManage
 ASSUMPTIONS = ["histories are bounded in shape (<= 2 complex + 2 real parameters) and length (<= 3 quick / <= 4 thorough); argument values come from a fixed table"]
 
 from vt.contracts import iface_vars  # noqa: F401,E402
+from vt.contracts import var_sym  # noqa: F401,E402
